@@ -2013,7 +2013,7 @@ def check_property(pid, tier, seed, do_lean=True, write_evidence=True):
     if do_lean:
         lean = core.lean_obligations(pid, thorough=(tier == "thorough"))
         proof_failures = list(lean["failures"])
-        tie = core.translator_tie()
+        tie = core.translator_tie(thorough=(tier == "thorough"))
     build_error = None
     results = []
     try:
@@ -2255,7 +2255,7 @@ def check_property(pid, tier, seed, do_lean=True, write_evidence=True):
                         "the translated Rust text does not panic and reports the definition's value -- the model's characterisation theorem "
                         "carried over along SF.GenEq.<View>.sim (real arithmetic); axioms audited",
                 skipped=tie.get("transfer_skipped") or tie.get("transfer_error")),
-            generated_files_that_changed_on_this_run=tie.get("changed", []), skipped=tie.get("skipped"), axioms_of_the_tie_theorems=tie.get("axioms"),
+            generated_files_that_changed_on_this_run=tie.get("changed", []), skipped=tie.get("skipped"), axioms_of_the_tie_theorems=tie.get("axioms"), leanchecker=tie.get("leanchecker", "thorough tier only"),
             views_of_this_check_whose_tie_is_lost=tie_lost_final(tie, js), wall_s=tie.get("wall_s"), checker_cmd=tie.get("checker_cmd"),
             views_not_covered_by_the_translator="HLNormalizer, CenterOfGravity, CorrelationTrendIndicator, NoiseEliminationTechnology, "
                                                 "CyberCycle, LaguerreFilter, LaguerreRSI, TrendFlex, ReFlex, PolarizedFractalEfficiency, "
